@@ -51,6 +51,9 @@ static rc::Gen<Scenario> c15_gen()
 		{ Op o; o.kind = ADD; o.conn = 0; o.a = 1; o.b = -1; sc.ops.push_back(o); }
 		// four subscriptions fill the initial fetcher table of every element; the fifth one (below) makes it grow
 		for (int f = 0; f < 4; f++) { Op o; o.kind = FETCH; o.conn = 1; o.a = f; o.b = 0; sc.ops.push_back(o); }
+		// a rule whose matcher copies several strings (containsAllOf), for fetch and for get
+		{ Op o; o.kind = FETCH; o.conn = 1; o.a = 5; o.b = 7; sc.ops.push_back(o); }
+		{ Op o; o.kind = GET; o.conn = 1; o.b = 7; sc.ops.push_back(o); }
 		// every scenario holds complete routed exchanges: answered with a result, answered with an error, and left to time out
 		{ Op o; o.kind = SET; o.conn = 1; o.a = 0; o.b = 3; sc.ops.push_back(o); }
 		{ Op o; o.kind = REPLY; o.conn = 0; o.a = 0; o.b = RP_RESULT; o.c = 4; sc.ops.push_back(o); }
